@@ -139,6 +139,8 @@ impl Point {
         let (b0, b9) = match self.sig.as_str() {
             "byte0" => (0xFE, 0x7F),
             "byte9" => (0xFF, 0x7E),
+            x if x.starts_with("b0:") => (x[3..].parse::<u8>().unwrap_or(0), 0x7F),
+            x if x.starts_with("b9:") => (0xFF, x[3..].parse::<u8>().unwrap_or(0)),
             _ => (0xFF, 0x7F),
         };
         let mut v = rc::greeting_with(self.version, self.mech.as_bytes(), b0, b9, 0);
@@ -175,7 +177,7 @@ async fn run_point(ctx: &mut Ctx, p: &Point, delivery: &str, follow_up: bool) {
     ctx.count(&format!("peer/{}", p.peer));
     ctx.count(&format!("version/{}.{}", p.version.0, p.version.1));
     ctx.count(&format!("mech/{}", p.mech));
-    ctx.count(&format!("sig/{}", p.sig));
+    ctx.count(&format!("sig/{}", if p.sig.contains(':') { &p.sig[..2] } else { &p.sig[..] }));
     ctx.count(&format!("ident/{}", p.ident));
     ctx.count(&format!("first/{}", p.first));
     let mut sock = Sock::new(&p.local, None);
@@ -505,6 +507,77 @@ fn compat_queries(ctx: &mut Ctx) {
     }
 }
 
+/// The same iff over the real transports, with another connection sitting silent in the
+/// middle of its own handshake: the valid peer is admitted, the incompatible one is
+/// closed and reported, whatever else is connected to the listener.
+async fn rig_admission(local: &str, transport: &str, stall_at: usize) -> Result<u64, (String, String)> {
+    use crate::rig::{self, Raw, ReadEnd, WAIT};
+    use futures::StreamExt;
+    use std::time::Duration;
+    use zeromq::SocketEvent;
+    let inc = |e: String| ("inconclusive".to_string(), e);
+    let mut sock = Sock::new(local, None);
+    let mut mon = sock.monitor();
+    let ep = sock.bind(&rig::bind_endpoint(transport)).await.map_err(inc)?;
+    let hs = rc::handshake(peer_type_for(local), Some(b"staller"));
+    let mut staller = Raw::connect(&ep).await.map_err(|e| inc(e.to_string()))?;
+    staller.write_all(&hs[..stall_at.min(hs.len() - 1)]).await.map_err(|e| inc(e.to_string()))?;
+    tokio::time::sleep(Duration::from_millis(20)).await;
+    // valid peer
+    let mut good = Raw::connect(&ep).await.map_err(|e| inc(e.to_string()))?;
+    if let Err(e) = good.handshake(peer_type_for(local), Some(b"good")).await {
+        if rig::canary_ok().await {
+            return Err((
+                format!("C04/valid-peer-not-admitted-over-transport/{transport}"),
+                format!("{local} bound on {transport}: a valid {} peer was not answered while another connection sat at byte {stall_at} of its handshake: {e}", peer_type_for(local)),
+            ));
+        }
+        return Err(inc(format!("handshake failed while the canary was slow: {e}")));
+    }
+    // incompatible peer: must be closed, never answered with application traffic
+    let mut bad = Raw::connect(&ep).await.map_err(|e| inc(e.to_string()))?;
+    let _ = bad.write_all(&rc::handshake("PAIR", Some(b"bad"))).await;
+    let mut acc = Vec::new();
+    let closed = loop {
+        match bad.read_exact_or(&mut acc, 1, WAIT).await {
+            Ok(()) => continue,
+            Err(ReadEnd::Eof) | Err(ReadEnd::Error(_)) => break true,
+            Err(ReadEnd::Timeout) => break false,
+        }
+    };
+    if !closed {
+        if rig::canary_ok().await {
+            return Err((
+                format!("C04/rejected-connection-not-closed-over-transport/{transport}"),
+                format!("{local} on {transport}: a PAIR peer's connection was still open after {WAIT:?}"),
+            ));
+        }
+        return Err(inc("rejected peer not closed while the canary was slow".into()));
+    }
+    let (mut accepted, mut failed) = (0, 0);
+    let deadline = std::time::Instant::now() + WAIT;
+    while (accepted < 1 || failed < 1) && std::time::Instant::now() < deadline {
+        match tokio::time::timeout(Duration::from_millis(50), mon.next()).await {
+            Ok(Some(SocketEvent::Accepted(..))) => accepted += 1,
+            Ok(Some(SocketEvent::AcceptFailed(_))) => failed += 1,
+            Ok(None) => break,
+            _ => {}
+        }
+    }
+    if accepted != 1 || failed < 1 {
+        if rig::canary_ok().await {
+            return Err((
+                format!("C04/admission-not-reported-over-transport/{transport}"),
+                format!("{local} on {transport}: one valid and one incompatible peer connected; monitor saw {accepted} accepted, {failed} failed"),
+            ));
+        }
+        return Err(inc("monitor wait expired while the canary was slow".into()));
+    }
+    drop(staller);
+    let _ = tokio::time::timeout(WAIT, sock.close()).await;
+    Ok(1)
+}
+
 impl Prop for C04 {
     fn id(&self) -> &'static str {
         "C04"
@@ -512,6 +585,17 @@ impl Prop for C04 {
 
     fn cases(&self, tier: Tier, seed: u64) -> Vec<Value> {
         let mut v = vec![json!({"kind": "compat"})];
+        for local in ALL_TYPES {
+            for transport in ["tcp4", "ipc"] {
+                for stall_at in [0usize, 10, 64, 70] {
+                    v.push(json!({"kind": "rig_admission", "local": local, "transport": transport, "stall_at": stall_at}));
+                }
+            }
+        }
+        for local in ALL_TYPES {
+            v.push(json!({"kind": "sig_sweep", "local": local, "delivery": "whole"}));
+            v.push(json!({"kind": "sig_sweep", "local": local, "delivery": "byte-at-a-time"}));
+        }
         for local in ALL_TYPES {
             for peer in PEER_TYPES {
                 v.push(json!({"kind": "unit", "local": local, "peer": peer, "delivery": "whole", "seed": seed}));
@@ -532,6 +616,42 @@ impl Prop for C04 {
                 let p = Point::from_json(case);
                 let delivery = s(case, "delivery").to_string();
                 sim::run(run_point(ctx, &p, &delivery, true));
+            }
+            "rig_admission" => {
+                ctx.eval(hash_str(&case.to_string()), true);
+                ctx.sample("rig_admission", || case.clone());
+                let (res, _) = crate::rig::run(2, rig_admission(s(case, "local"), s(case, "transport"), u(case, "stall_at") as usize));
+                match res {
+                    Ok(n) => {
+                        ctx.add("rig_admissions_beside_a_stalled_handshake", n);
+                        ctx.count(&format!("rig_transport/{}", s(case, "transport")));
+                    }
+                    Err((sig, msg)) if sig == "inconclusive" => ctx.inconclusive(format!("C04 rig: {msg}")),
+                    Err((sig, msg)) => ctx.violation_with(&sig, msg, case.clone()),
+                }
+            }
+            "sig_sweep" => {
+                // every wrong value of either signature byte, everything else valid
+                let local = s(case, "local");
+                ctx.sample("sig_sweep", || case.clone());
+                for byte in ["b0", "b9"] {
+                    for val in 0..=255u8 {
+                        if (byte == "b0" && val == 0xFF) || (byte == "b9" && val == 0x7F) {
+                            continue;
+                        }
+                        let p = Point {
+                            local: local.into(),
+                            peer: crate::sock::peer_type_for(local).into(),
+                            version: (3, 0),
+                            mech: "NULL".into(),
+                            sig: format!("{byte}:{val}"),
+                            ident: "none".into(),
+                            first: "ready".into(),
+                        };
+                        ctx.count("signature_byte_values_swept");
+                        sim::run(run_point(ctx, &p, s(case, "delivery"), val % 16 == 1));
+                    }
+                }
             }
             "unit" => {
                 let local = s(case, "local");
@@ -578,6 +698,8 @@ impl Prop for C04 {
             ("rejected", 100_000),
             ("rejected_follow_up", 5_000),
             ("rejected/signature", 1000),
+            ("signature_byte_values_swept", 9000),
+            ("rig_admissions_beside_a_stalled_handshake", 60),
             ("rejected/version", 1000),
             ("rejected/mechanism", 1000),
             ("rejected/first-item-not-READY", 1000),
